@@ -647,7 +647,7 @@ class Engine:
             # a location that some merged path never initialised: reading it there would be a read of indeterminate memory,
             # so the merged content may be whatever the initialised paths hold (no fresh symbols needed)
             live = [(c, cnd) for c, cnd in zip(cells, conds) if c is not None]
-            if len(live) < len(cells):
+            if len(live) < len(cells) and s.opts.get('uninit_live', '1') == '1':
                 if not live: continue
                 if all(same(c, live[0][0]) for c, _ in live):
                     m.mem.d[a] = live[0][0]; continue
